@@ -944,16 +944,431 @@ def gen_codecs(rng, tier):
     return items
 
 
+# ------------------------------------------------------------------------------------------
+# large, highly compressible data (seeded defect n3: a "decompression bomb" guard that caps the inflated size at
+# max(64 KiB, 128 x compressed size) truncates legal streams -- deflate reaches about 1000 : 1 on runs of equal bytes)
+# ------------------------------------------------------------------------------------------
+class Form:
+    """a byte string together with its compact description  xHEX | (rep FORM n) | (cat FORM ...), expanded identically by
+    the harness (c09.rs form_bytes) and the model runner (RunC09.v bytes_form); case lines stay small"""
+    __slots__ = ('sx', 'data')
+    def __init__(self, sx, data):
+        self.sx, self.data = sx, data
+    def __hash__(self):
+        return hash(self.sx)
+    def __eq__(self, other):
+        return isinstance(other, Form) and self.sx == other.sx
+    def __len__(self):
+        return len(self.data)
+
+
+def flit(b):
+    return b if isinstance(b, Form) else Form(xb(b), bytes(b))
+
+
+def fauto(b, minrun=48):
+    """a byte string as a Form with its stretches of period 1, 2, 3, 4, 6 or 8 written as (rep xPATTERN n)"""
+    parts = []; i = 0; lit = 0; n = len(b)
+    while i < n:
+        hit = None
+        for p in (1, 2, 3, 4, 6, 8):
+            j = i + p
+            while j < n and b[j] == b[j - p]:
+                j += 1
+            if j <= n and j - i >= max(minrun, 4 * p):
+                hit = (p, (j - i) // p); break
+        if hit is None:
+            i += 1; continue
+        p, k = hit
+        if lit < i:
+            parts.append(Form(xb(b[lit:i]), b[lit:i]))
+        parts.append(Form(L('rep', xb(b[i:i + p]), str(k)), b[i:i + p * k]))
+        i += p * k; lit = i
+    if lit < n or not parts:
+        parts.append(Form(xb(b[lit:]), b[lit:]))
+    f = parts[0] if len(parts) == 1 else Form(L('cat', *[f.sx for f in parts]), bytes(b))
+    assert f.data == bytes(b)
+    return f
+
+
+def frep(f, n):
+    f = flit(f)
+    return Form(L('rep', f.sx, str(n)), f.data * n)
+
+
+def fcat(*fs):
+    fs = [flit(f) for f in fs]
+    return Form(L('cat', *[f.sx for f in fs]), b''.join(f.data for f in fs))
+
+
+def fsx(b):
+    """case text of a byte string or a Form"""
+    return b.sx if isinstance(b, Form) else xb(b)
+
+
+def lzw_encode_fast(data, early=1):
+    """lzw_encode (the reference above) with the table keyed by (code of the prefix, next byte) and an integer bit buffer:
+    linear time, needed for megabytes of runs.  Checked against the reference on every run (check_fast_lzw)."""
+    acc = 0; nacc = 0
+    width = 9; nxt = 258
+    out = bytearray()
+    table = {}
+    def emit(code):
+        nonlocal acc, nacc
+        acc = (acc << width) | code; nacc += width
+        while nacc >= 8:
+            nacc -= 8
+            out.append((acc >> nacc) & 255)
+        acc &= (1 << nacc) - 1
+    emit(256)
+    w = None
+    for c in data:
+        if w is None:
+            w = c; continue
+        k = (w << 8) | c
+        code = table.get(k)
+        if code is not None:
+            w = code; continue
+        emit(w)
+        table[k] = nxt
+        nxt += 1
+        if nxt - 1 + early >= (1 << width) and width < 12:
+            width += 1
+        if nxt >= 4093:
+            emit(256)
+            table = {}; width = 9; nxt = 258
+        w = c
+    if w is not None:
+        emit(w)
+        nxt += 1
+        if nxt - 1 + early >= (1 << width) and width < 12:
+            width += 1
+    emit(257)
+    if nacc:
+        out.append((acc << (8 - nacc)) & 255)
+    return bytes(out)
+
+
+def check_fast_lzw(rng):
+    for kind, n in (('random', 5000), ('zeros', 20000), ('runs', 3000), ('text', 4000), ('small', 0), ('small', 1)):
+        d = rand_bytes(rng, n, kind)
+        for ec in (0, 1):
+            assert lzw_encode_fast(d, ec) == lzw_encode(d, ec), 'fast LZW encoder differs from the reference encoder'
+
+
+BIG_SIZES = [65537, 70000, 131072, 300000, 1000000, 2097152]     # the first is one byte more than 64 KiB, the last 2 MiB
+
+
+def big_plain(rng, kind, size):
+    """`size` bytes (about) of highly compressible content, as a Form"""
+    if kind == 'const':
+        return frep(bytes([rng.choice([0, 255, 255, 0x20, rng.getrandbits(8)])]), size)
+    if kind == 'runs':
+        parts = []; n = 0
+        while n < size:
+            k = min(size - n, rng.randint(20000, 200000))
+            parts.append(frep(bytes([rng.getrandbits(8)]), k)); n += k
+        return fcat(*parts)
+    if kind == 'scan1':
+        # a 1-bit page, 2480 pixels = 310 bytes a row: a little "ink" at the top, the rest blank (0 or 1 = white)
+        rows = max(3, -(-size // 310))
+        blank = bytes([rng.choice([0, 255])]) * 310
+        k = rng.choice([1, 2])
+        return fcat(*([fauto(ink_row(rng, blank)) for _ in range(k)] + [frep(fauto(blank), rows - k)]))
+    if kind == 'pad':
+        head = rand_bytes(rng, rng.choice([10, 100, 400]), rng.choice(['text', 'random']))
+        return fcat(head, frep(b'\x00', size - len(head)))
+    if kind == 'pixel':
+        # one colour: a pixel of 3, 4 or 6 bytes repeated
+        px = rand_bytes(rng, rng.choice([3, 4, 6]), 'random')
+        return frep(px, -(-size // len(px)))
+    raise AssertionError(kind)
+
+
+def ink_row(rng, blank):
+    """a blank row with a short stretch of other bytes"""
+    n = rng.randint(1, min(40, len(blank)))
+    at = rng.randrange(len(blank) - n + 1)
+    return blank[:at] + rand_bytes(rng, n, 'random') + blank[at + n:]
+
+
+def png_frame_runs(bpp, runs):
+    """runs = [(row, count, filter type)]: `count` equal rows in sequence, each filtered with `type`.  After the first row of a run the
+    row above equals the row itself, so the remaining count-1 filtered rows are equal: the frame has a compact Form.
+    Returns (Form of the filtered frame, Form of the raw rows); the rows are filtered by the reference png_encode_row."""
+    prior = bytes(len(runs[0][0]))
+    parts, raws = [], []
+    for row, count, t in runs:
+        parts.append(fauto(bytes([t]) + png_encode_row(t, bpp, prior, row)))
+        if count > 1:
+            parts.append(frep(fauto(bytes([t]) + png_encode_row(t, bpp, row, row)), count - 1))
+        raws.append(frep(fauto(row), count))
+        prior = row
+    return fcat(*parts), fcat(*raws)
+
+
+def big_image(rng, size, model=True):
+    """a mostly blank image with wide rows and its PNG-predicted frame: (parm entries, frame Form, raw Form, tags).
+    model: the case will also run on the extracted model, whose frame_go measures the rest of the data once a row (Coq's
+    length, unary): about rows x size / 2 steps at 6 million a second, four decodings a case, so the rows are made wide enough
+    for 8 million / size rows at most (300 000 bytes: 26 rows of 11 500 bytes).  Ordinary page geometries (hundreds or
+    thousands of rows in a megabyte) run on the implementation only."""
+    colors, bpc = rng.choice([(1, 8), (1, 8), (3, 8), (4, 8), (1, 16), (3, 16)])
+    columns = rng.choice([1000, 1240, 2480, 4096, 5000]) if colors * bpc <= 16 else rng.choice([1000, 1240, 2000])
+    bpp = colors * bpc // 8
+    if model:
+        rows_max = max(3, 8000000 // size)
+        columns = max(columns, -(-size // (rows_max * bpp)))
+    bpr = bpp * columns
+    nrows = max(3, -(-size // bpr))
+    pred = rng.choice([12, 12, 15, 15, 10, 11, 13, 14])
+    px = bytes([rng.choice([0, 255, 255, rng.getrandbits(8)])]) * bpp if rng.random() < 0.7 else rand_bytes(rng, bpp, 'random')
+    blank = px * columns
+    runs = []
+    left = nrows
+    if rng.random() < 0.5:
+        k = rng.choice([1, 2, 4])               # some rows that are not blank at the top
+        for _ in range(k):
+            runs.append((ink_row(rng, blank), 1, rng.randint(0, 4)))
+        left -= k
+    if pred == 15 or rng.random() < 0.3:
+        cuts = sorted(rng.sample(range(1, left), min(left - 1, rng.randint(1, 4)))) + [left]
+        at = 0
+        for c in cuts:                           # per-row types: up to five stretches of rows with one type each
+            runs.append((blank, c - at, rng.randint(0, 4))); at = c
+    else:
+        runs.append((blank, left, pred - 10))
+    frame, raw = png_frame_runs(bpp, runs)
+    ent = [('Predictor', I(pred)), ('Columns', I(columns))]
+    if colors != 1 or rng.random() < 0.3:
+        ent.append(('Colors', I(colors)))
+    if bpc != 8 or rng.random() < 0.3:
+        ent.append(('BitsPerComponent', I(bpc)))
+    rng.shuffle(ent)
+    return ent, frame, raw, ['big-pred%d' % pred, 'big-bpp%d' % bpp, 'big-columns%d' % columns] + sorted({'png%d' % t for _, _, t in runs})
+
+
+def big_stream_case(entries, content, orc, expect, newc, model=True):
+    return L('case', 'big' if model else 'bigd', 'stream', L('st', D(entries), fsx(content)), L('orc', *[L(t, fsx(i), fsx(o)) for (t, i, o) in orc]),
+             L('plain', fsx(expect)), xb(newc))
+
+
+def ratio_tags(plain_len, enc_len):
+    r = plain_len / max(1, enc_len)
+    return ['big-ratio>%d' % t for t in (128, 256, 512) if r > t] + ['big-size>%dK' % t for t in (64, 128, 256, 1024) if plain_len > t * 1024]
+
+
+def gen_big_stream(rng, what, size, model=True):
+    """one stream with a very high compression ratio; `what`:
+       flate | flate-pred | lzw | lzw-pred | a85-flate | flate-flate | unfiltered (compressed by Stream::compress, then decoded).
+       Flate data is redrawn until the ratio exceeds 160 : 1 (LZW: 100 : 1).
+       model=False: `(case bigd ..)`, run on the implementation only (direct verdict against the expected data; the runner
+       answers model-skipped, kind tagged -model-skipped in the evidence)"""
+    for _ in range(50):
+        r = gen_big_stream1(rng, what, size, model)
+        if r is not None:
+            return r
+    raise AssertionError('no data of a high ratio found for ' + what)
+
+
+def gen_big_stream1(rng, what, size, model):
+    newc = rand_bytes(rng, rng.choice([0, 5]))
+    tags = {'kind': 'big-' + what + ('' if model else '-model-skipped'), 'nontrivial': True}
+    ent = []
+    if what.endswith('-pred'):
+        ent, payload, plain, cov = big_image(rng, size, model)
+    else:
+        plain = payload = big_plain(rng, rng.choice(['const', 'const', 'runs', 'scan1', 'pad', 'pixel']), size)
+        cov = []
+    if what == 'unfiltered':
+        entries = [('Length', I(len(plain)))] if rng.random() < 0.6 else []
+        if rng.random() < 0.3:
+            entries.append(('Type', N('XObject')))
+        def make(ans):
+            z = ans[('z', plain)]
+            assert len(z) * 128 < len(plain), 'flate2 did not reach 128 : 1'
+            return big_stream_case(entries, plain, [('z', plain, z), ('f', z, plain)], plain, newc)
+        zl = len(zlib.compress(plain.data, 9))           # flate2's best is about the same
+        if zl * 160 >= len(plain):
+            return None
+        tags['cov'] = ['big-compress'] + ratio_tags(len(plain), zl)
+        return Pending(make, [('z', plain)], tags)
+    orc = []
+    if what.startswith('lzw'):
+        ec = rng.choice([None, 0, 1])
+        early = 1 if ec is None else ec
+        enc = lzw_encode_fast(payload.data, early)
+        if len(enc) * 100 >= len(plain):
+            return None
+        assert lzw_decode(enc, early) == payload.data
+        orc.append(('l%d' % early, enc, payload))
+        if ec is not None:
+            ent.append(('EarlyChange', I(ec)))
+        chain = [LZ]
+        content = enc
+    else:
+        level = rng.choice([1, 6, 9, 9])
+        enc = zlib.compress(payload.data, level)
+        if len(enc) * 160 >= len(plain):
+            return None
+        assert zlib.decompress(enc) == payload.data
+        orc.append(('f', enc, payload))
+        chain = [FL]
+        content = enc
+        cov.append('flate-l%d' % level)
+        if what == 'a85-flate':
+            chain = [A8, FL]; content = a85_encode(enc, rng)
+        elif what == 'flate-flate':
+            chain = [FL, FL]; content = zlib.compress(enc, 6); orc.append(('f', content, enc))
+    cov += ratio_tags(len(plain), len(enc))
+    entries = [('Filter', N(chain[0]) if len(chain) == 1 and rng.random() < 0.6 else A([N(f) for f in chain]))]
+    if ent:
+        parms = [None] * (len(chain) - 1) + [ent]
+        if len(chain) == 1 and rng.random() < 0.5:
+            entries.append(('DecodeParms', D(ent)))
+        else:
+            entries.append(('DecodeParms', A([D(p) if p else NULL for p in parms])))
+    if rng.random() < 0.7:
+        entries.append(('Length', I(len(content))))
+    rng.shuffle(entries)
+    tags['cov'] = cov
+    return big_stream_case(entries, content, orc, plain, newc, model), tags
+
+
+def gen_big_doc(rng, size):
+    """Document::compress then Document::decompress over large streams: unfiltered (compressed by flate2, decoded again),
+    Flate + predictor and LZW (decoded), one with compression not allowed; every stream must end up holding its plain data"""
+    ids = rng.sample(range(1, 40), 5)
+    plan, orc, queries, nocomp, plains = [], [], [], [], []
+    for k, i in zip(['unfiltered', 'flate-pred', 'lzw', 'nocomp', 'other'], ids):
+        id_ = (i, rng.choice([0, 0, 1]))
+        if k in ('unfiltered', 'nocomp'):
+            plain = big_plain(rng, rng.choice(['const', 'scan1', 'pad']), size)
+            plan.append((id_, ('plain', [('Length', I(len(plain)))], plain)))
+            plains.append((id_, plain))
+            if k == 'nocomp':
+                nocomp.append(id_)
+            else:
+                queries.append(('z', plain))
+        elif k == 'flate-pred':
+            ent, payload, plain, _ = big_image(rng, size)
+            enc = zlib.compress(payload.data, 9)
+            orc.append(('f', enc, payload))
+            plan.append((id_, ('fixed', L('st', D([('Filter', N(FL)), ('DecodeParms', D(ent)), ('Length', I(len(enc)))]), xb(enc)))))
+            plains.append((id_, plain))
+        elif k == 'lzw':
+            plain = big_plain(rng, 'const', min(size, 300000))
+            enc = lzw_encode_fast(plain.data, 1)
+            orc.append(('l1', enc, plain))
+            plan.append((id_, ('fixed', L('st', D([('Filter', A([N(LZ)])), ('Length', I(len(enc)))]), xb(enc)))))
+            plains.append((id_, plain))
+        else:
+            plan.append((id_, ('fixed', D([('Type', N('Catalog'))]))))
+    def make(ans):
+        o2 = list(orc)
+        objects = []
+        for id_, p in plan:
+            if p[0] == 'plain':
+                if id_ not in nocomp:
+                    z = ans[('z', p[2])]
+                    o2.append(('z', p[2], z)); o2.append(('f', z, p[2]))
+                objects.append((id_, L('st', D(p[1]), fsx(p[2]))))
+            else:
+                objects.append((id_, p[1]))
+        doc = DOC('1.5', b'', [('Size', I(100))], objects, max(i for (i, _), _ in objects))
+        return L('case', 'big', 'doc', doc, L('nocomp', *[OID(*x) for x in nocomp]), L('orc', *[L(t, fsx(i), fsx(o)) for (t, i, o) in o2]),
+                 L('plains', *[L(OID(*id_), fsx(f)) for id_, f in plains]))
+    return Pending(make, queries, {'kind': 'big-doc', 'nontrivial': True, 'cov': ['big-doc'] + ratio_tags(size, max(len(zlib.compress(q[1].data, 9)) for q in queries))})
+
+
+def gen_big_codec(rng, what, size, which=None):
+    """the Gallina decoders themselves (Spec/Inflate.v, Spec/LzwSpec.v) against flate2 / weezl at very high ratios.
+    zrtn: streams from zlib level 1 / 9 / fixed codes / RLE strategy and from flate2 best / fast (`which`: a subset, the
+    extracted inflate writes about half a megabyte a second)"""
+    plain = big_plain(rng, rng.choice(['const', 'runs', 'scan1', 'pad', 'pixel']), size)
+    if what == 'zrtn':
+        which = which or ['l1', 'l9', 'fixed', 'rle', 'z', 'z1']
+        own = []
+        for w in which:
+            if w == 'fixed':
+                co = zlib.compressobj(9, zlib.DEFLATED, 15, 9, zlib.Z_FIXED); own.append(co.compress(plain.data) + co.flush())
+            elif w == 'rle':
+                co = zlib.compressobj(6, zlib.DEFLATED, 15, 8, zlib.Z_RLE); own.append(co.compress(plain.data) + co.flush())
+            elif w in ('l1', 'l9'):
+                own.append(zlib.compress(plain.data, int(w[1])))
+        qs = [(t, plain) for t in which if t in ('z', 'z1')]
+        def make(ans):
+            encs = own + [ans[q] for q in qs]
+            return L('case', 'big', 'zrtn', plain.sx, L('encs', *[xb(e) for e in encs]))
+        return Pending(make, qs, {'kind': 'big-inflate-rt', 'nontrivial': True, 'cov': ratio_tags(len(plain), len(zlib.compress(plain.data, 9)))})
+    ec = rng.choice([0, 1])
+    pe = lzw_encode_fast(plain.data, ec)
+    def make(ans):
+        return L('case', 'big', 'lzwrtn', str(ec), plain.sx, L('encs', xb(pe), xb(ans[('e%d' % ec, plain)])))
+    return Pending(make, [('e%d' % ec, plain)], {'kind': 'big-lzw-rt', 'nontrivial': True, 'cov': ratio_tags(len(plain), len(pe))})
+
+
+def gen_big_echo(rng):
+    """the glue of the large cases against itself: a random form expanded and rendered run by run by harness and runner"""
+    def form(depth=0):
+        r = rng.random()
+        if r < 0.3 or depth > 2:
+            return flit(rand_bytes(rng, rng.choice([0, 1, 2, 5, 30, 63, 64, 65, 200])))
+        if r < 0.65:
+            pat = rand_bytes(rng, rng.choice([1, 1, 2, 3, 4, 5, 6, 7, 8, 9]), rng.choice(['random', 'small', 'zeros']))
+            return frep(pat, rng.choice([1, 2, 7, 8, 9, 10, 11, 15, 16, 21, 22, 31, 32, 33, 63, 64, 65, 100, 1000, 20000]))
+        return fcat(*[form(depth + 1) for _ in range(rng.randint(0, 4))])
+    f = form()
+    return L('case', 'big', 'echo', f.sx), {'kind': 'big-echo', 'nontrivial': len(f) > 0}
+
+
+def gen_big(rng, tier):
+    """quick: every size class with plain Flate, most with Stream::compress (both show a cap on the inflated size), the other
+    shapes on some sizes; thorough: every shape x every size, several times"""
+    check_fast_lzw(rng)
+    items = []
+    k = 1 if tier == 'quick' else 4
+    for rep in range(k):
+        for size in BIG_SIZES:
+            items.append(gen_big_stream(rng, 'flate', size + (rng.randint(0, 999) if rep else 0)))
+        for size in BIG_SIZES[1::2] if k == 1 else BIG_SIZES:
+            items.append(gen_big_stream(rng, 'unfiltered', size))
+        for size in ([70000, 131072, 300000] if k == 1 else BIG_SIZES[:4]):
+            items.append(gen_big_stream(rng, 'flate-pred', size))
+        # page geometries (thousands of rows): implementation only
+        for size in ([1000000, 2097152] if k == 1 else [300000, 1000000, 2097152]):
+            items.append(gen_big_stream(rng, 'flate-pred', size, model=False))
+        for what in ('a85-flate', 'flate-flate'):
+            for size in ([rng.choice(BIG_SIZES[1:])] if k == 1 else BIG_SIZES[1::2]):
+                items.append(gen_big_stream(rng, what, size))
+        for size in ([70000, 300000] if k == 1 else [70000, 131072, 300000, 600000]):
+            items.append(gen_big_stream(rng, 'lzw', size))
+        items.append(gen_big_stream(rng, 'lzw-pred', rng.choice([100000, 200000])))
+        items.append(gen_big_stream(rng, 'lzw-pred', 1000000, model=False))
+        for size in ([300000] if k == 1 else [70000, 300000, 1000000]):
+            items.append(gen_big_doc(rng, size))
+        items.append(gen_big_codec(rng, 'zrtn', 131072))
+        for w in (['z', 'l9'] if k == 1 else ['z', 'l9', 'l1', 'fixed', 'rle', 'z1']):
+            items.append(gen_big_codec(rng, 'zrtn', 1000000, [w]))
+        if k > 1:
+            items.append(gen_big_codec(rng, 'zrtn', 2097152, ['z']))
+        for size in ([131072] if k == 1 else [70000, 300000]):
+            items.append(gen_big_codec(rng, 'lzwrtn', size))
+        for _ in range(40):
+            items.append(gen_big_echo(rng))
+    return items
+
+
 def resolve(items):
     """items: list of (line, tags) or Pending -> list of (line, tags); asks the harness oracle mode once"""
     pend = [x for x in items if isinstance(x, Pending)]
     ans = {}
     if pend:
-        qs = sorted({q for p in pend for q in p.queries})
+        qs = sorted({q for p in pend for q in p.queries}, key=lambda q: (q[0], fsx(q[1])))
         exe, log = vlib.build_harness('c09')
         if exe is None:
             raise RuntimeError('harness build failed: ' + log[-500:])
-        outs = vlib.run_lines(exe, [L(t, xb(i)) for (t, i) in qs], timeout=300, args=['--oracle'])
+        outs = vlib.run_lines(exe, [L(t, fsx(i)) for (t, i) in qs], timeout=300, args=['--oracle'])
         for q, o in zip(qs, outs):
             if not o.startswith('x'):
                 raise RuntimeError('oracle mode answered %r' % o[:80])
@@ -1033,7 +1448,27 @@ def gen_cases(rng, tier):
         for l in range(0, 256, 2):
             items.append((L('case', 'paeth', str(l), str(l + 2)), {'kind': 'paeth-sweep', 'nontrivial': True}))
     items.extend(gen_codecs(rng, tier))
-    return resolve(items)
+    items.extend(gen_big(rng, tier))
+    out = resolve(items)
+    raise_stack_limit()
+    return out
+
+
+def raise_stack_limit():
+    """the extracted runner recurses on the data (Coq's length, app, map are not tail recursive): a megabyte needs more than the
+    usual 8 MB stack.  The soft limit of this process is raised (the children started afterwards -- harness and runner -- inherit
+    it); the hard limit is not touched.  Where that is not possible the runner answers (model-stack-overflow), see compare."""
+    try:
+        import resource
+        soft, hard = resource.getrlimit(resource.RLIMIT_STACK)
+        want = 1 << 30
+        if soft != resource.RLIM_INFINITY and soft < want:
+            resource.setrlimit(resource.RLIMIT_STACK, (want if hard == resource.RLIM_INFINITY else min(want, hard), hard))
+    except Exception:
+        pass
+
+
+MODEL_SKIPPED = []          # large cases the extracted model could not run (stack): reported in the evidence notes by run()
 
 
 def compare(model_out, impl_out):
@@ -1042,6 +1477,13 @@ def compare(model_out, impl_out):
     decoder rejects a stream flate2 may still accept it (miniz_oxide reads a match that reaches back before the start of the
     output as zeros, e.g. 7801621845440300000000ffff63180544030002580001, which zlib rejects as 'invalid distance too far
     back' like the Gallina decoder does; lopdf ignores decoder errors anyway).  LZW (lzwdec) stays exact in both directions."""
+    if model_out in ('(model-stack-overflow)', '(model-out-of-memory)') and impl_out.startswith('(big '):
+        # a large case the extracted model cannot hold: never compared against a partial model answer; the direct verdict
+        # on the implementation (expected data known to the generator) still decides
+        MODEL_SKIPPED.append(model_out)
+        return True
+    if model_out == 'model-skipped' and impl_out.startswith('(bigd '):
+        return True             # (case bigd ..): implementation only by construction, see gen_big_stream
     return model_out == impl_out or (model_out == '(zdec err)' and impl_out.startswith('(zdec (ok '))
 
 
@@ -1063,6 +1505,12 @@ SPEC = {
             'codec correspondence: the extracted Gallina LZW codec vs weezl and the extracted Gallina inflate vs flate2 (round trips through '
             'Gallina / crate / Python encoders, EarlyChange 0 and 1, tables filled past 4096 codes, clearing limits 259..4096, width-change '
             'boundaries, all byte values, stored/fixed/dynamic blocks, blocks of 65535 bytes, damaged streams); '
+            'large, highly compressible data (65 537 bytes .. 2 MiB of constant bytes, long runs, one-colour pixels, blank 1-bit scans with a '
+            'little ink, zero padding; ratios above 160 : 1 for Flate, 100 : 1 for LZW, up to 1000 : 1) as compact forms expanded identically by '
+            'harness and model: plain Flate at every size class, Flate and LZW + predictor 10-15 with wide rows, ASCII85+Flate, Flate+Flate, '
+            'Stream::compress then decoding, Document::compress + decompress with the expected content per object, the Gallina inflate / LZW '
+            'decoder against flate2 / weezl on such streams; page geometries with thousands of rows at 1-2 MiB run on the implementation only '
+            '(kinds ...-model-skipped: direct verdict against the expected data, the model is not asked); '
             'non-trivial = non-empty data; distinct = distinct case text',
     'extra_trusted': [
         'C09: flate2 (inflate/deflate) and weezl (LZW) are third-party code, universally quantified functions in the theorems.  What is '
@@ -1090,7 +1538,17 @@ SPEC = {
 
 
 def run(ctx):
-    return propcheck.standard_check(ctx, SPEC)
+    del MODEL_SKIPPED[:]
+    spec = dict(SPEC)
+    def cmp(m, i):
+        before = len(MODEL_SKIPPED)
+        r = compare(m, i)
+        if len(MODEL_SKIPPED) > before and before == 0:
+            ctx.notes.append('model-skipped: large cases answered %s by the extracted runner are decided by the direct verdict on the '
+                             'implementation only (stack limit of this machine could not be raised)' % m)
+        return r
+    spec['compare'] = cmp
+    return propcheck.standard_check(ctx, spec)
 
 
 MANIFEST = {
